@@ -103,15 +103,15 @@ type DivViolation struct {
 
 // InputEvent records AddInput / RemoveInput (v1).
 type InputEvent struct {
-	Kind       string // add | remove
-	P          uint
-	Gen        int // add: generation of the new channel; remove: generation removed
-	IssuedOp   int
-	Returned   bool
-	ReturnedAt int64
-	ReadsAtRet int // remove: number of items the discipline had read from the channel when the call returned
-	ReadsFinal int // remove: ... at the end of the run
-	DelivAtRet int // add: number of deliveries recorded when AddInput returned
+	Kind          string // add | remove
+	P             uint
+	Gen           int // add: generation of the new channel; remove: generation removed
+	IssuedOp      int
+	Returned      bool
+	ReturnedAt    int64
+	ReadsAtRet    int // remove: number of items the discipline had read from the channel when the call returned
+	ReadsFinal    int // remove: ... at the end of the run
+	DelivAtRet    int // add: number of deliveries recorded when AddInput returned
 	OldGen        int // add: generation of the channel that was replaced (0 = none)
 	OldReadsAtRet int
 	OldReadsFinal int
@@ -139,29 +139,29 @@ type Trace struct {
 	FaultInFlight int
 	FaultAtCreate bool
 
-	Terminated     bool
-	TerminatedAt   int64
-	TermOp         int
-	TermHow        string
-	TermInFlight   int // harness in-flight count when termination was first observed
-	TermPending    int // written and undelivered items at that moment
-	TermAllClosed  bool
-	TermGStopAsked bool
-	ErrVal         string // value read from Err() ("" none, "nil-closed" closed without value)
-	ErrClosed      bool
-	ReleasePanics  int
-	GStopIssuedAt  int64
-	GStopReturned  bool
-	StopIssuedAt   int64
-	StopIssuedOp   int
-	StopMode       string
-	StopReturned   bool
-	StopReturnedAt int64
-	StopOutLen     int // items in the (v1) output channel when Stop returned
-	StopInFlight   int
-	StopBlockedOut bool // discipline was blocked on a full output when Stop was issued
-	AfterStopRecv  int  // items received after Stop returned
-	AfterStopNew   int  // ... beyond what sat in the output channel at that moment
+	Terminated             bool
+	TerminatedAt           int64
+	TermOp                 int
+	TermHow                string
+	TermInFlight           int // harness in-flight count when termination was first observed
+	TermPending            int // written and undelivered items at that moment
+	TermAllClosed          bool
+	TermGStopAsked         bool
+	ErrVal                 string // value read from Err() ("" none, "nil-closed" closed without value)
+	ErrClosed              bool
+	ReleasePanics          int
+	GStopIssuedAt          int64
+	GStopReturned          bool
+	StopIssuedAt           int64
+	StopIssuedOp           int
+	StopMode               string
+	StopReturned           bool
+	StopReturnedAt         int64
+	StopOutLen             int // items in the (v1) output channel when Stop returned
+	StopInFlight           int
+	StopBlockedOut         bool // discipline was blocked on a full output when Stop was issued
+	AfterStopRecv          int  // items received after Stop returned
+	AfterStopNew           int  // ... beyond what sat in the output channel at that moment
 	HandleRunningAfterStop int
 
 	Inputs []InputEvent
@@ -175,15 +175,15 @@ type Trace struct {
 
 // InStat is the final state of one input channel.
 type InStat struct {
-	P         uint
-	Gen       int
-	Cap       int
-	Enq       int
-	WDone     int
-	Closed    bool
-	Removed   bool
-	Replaced  bool
-	Delivered int
-	Reads     int // items the discipline took from the channel
+	P            uint
+	Gen          int
+	Cap          int
+	Enq          int
+	WDone        int
+	Closed       bool
+	Removed      bool
+	Replaced     bool
+	Delivered    int
+	Reads        int  // items the discipline took from the channel
 	Unregistered bool // channel of an AddInput call that never returned (the discipline terminated first)
 }
